@@ -100,12 +100,18 @@ impl<'a, K: KeyView, V> Entry<'a, K, V> {
                 !self.map_before().contains_key(self.key()) ==> V::default.ensures((), *r),
                 self.map_final() == self.map_before().insert(self.key(), *final(r))
     { unimplemented!() }
+    /// R9: `or_insert_with(|| x)` is unfolded to its std definition `match entry { Vacant(e) => e.insert(x), Occupied(e) => e.into_mut() }`
     #[verifier::external_body]
-    pub fn or_insert_with<F: FnOnce() -> V>(self, f: F) -> (r: &'a mut V)
-        requires f.requires(())
-        ensures self.map_before().contains_key(self.key()) ==> *r == self.map_before()[self.key()],
-                !self.map_before().contains_key(self.key()) ==> f.ensures((), *r),
-                self.map_final() == self.map_before().insert(self.key(), *final(r))
+    pub fn verif_is_vacant(&self) -> (b: bool) ensures b == !self.map_before().contains_key(self.key()) { unimplemented!() }
+    #[verifier::external_body]
+    pub fn verif_insert(self, v: V) -> (r: &'a mut V)
+        requires !self.map_before().contains_key(self.key())
+        ensures *r == v, self.map_final() == self.map_before().insert(self.key(), *final(r))
+    { unimplemented!() }
+    #[verifier::external_body]
+    pub fn verif_into_mut(self) -> (r: &'a mut V)
+        requires self.map_before().contains_key(self.key())
+        ensures *r == self.map_before()[self.key()], self.map_final() == self.map_before().insert(self.key(), *final(r))
     { unimplemented!() }
     #[verifier::external_body]
     pub fn or_insert(self, default: V) -> (r: &'a mut V)
